@@ -219,6 +219,26 @@ pub fn phase(sim: &mut Sim, rng: &mut Rng, rep: &mut Report) -> Result<(), Strin
 		let peer = sim.w.chans[ci].peer_of(closer);
 		let cid = sim.w.chans[ci].chan_id();
 		let pid = sim.w.nodes[peer].id;
+		// closure by what the other party sees as the *previous unrevoked* counterparty commitment: the other party
+		// has just signed a newer commitment (one more HTLC) that the closing node never receives
+		if !cut_first && sim.w.is_connected(a, b) && rng.chance(1, 3) {
+			sim.w.deliver_all(10_000);
+			for k in 0..n {
+				sim.w.complete_all(k);
+				sim.w.process_events(k);
+			}
+			sim.w.deliver_all(10_000);
+			sim.dispatch(rep);
+			if let Some(d) = sim.w.nodes[peer].mgr.list_usable_channels().into_iter().find(|c| c.channel_id == cid) {
+				if d.next_outbound_htlc_limit_msat > 3_000_000 && sim.w.queue_len(peer, closer) == 0 && sim.w.queue_len(closer, peer) == 0 {
+					sim.w.step += 1;
+					sim.w.note(format!("ONCHAIN node{} signs one more commitment for node{} (new HTLC), which never arrives: node{} closes with the previous one", peer, closer, closer));
+					if sim.w.send_payment(peer, &[(vec![ci], 1_200_000 + rng.below(800_000))], 80, None, None).is_ok() && sim.w.queue_len(peer, closer) > 0 {
+						rep.count("onchain_closes_set_up_as_previous_unrevoked_counterparty_commitment");
+					}
+				}
+			}
+		}
 		sim.w.step += 1;
 		sim.w.chans[ci].fault = Some("user force-close".into());
 		sim.w.note(format!("ONCHAIN force-close chan {} by node{}", ci, closer));
